@@ -31,6 +31,8 @@ def gen_one(rng, i, tier):
 
 
 def nontrivial(inp):
+    if inp.get("big"):
+        return True
     return (inp["ep"] > 0 or inp["en"] > 0 or (inp["sc"], inp["ec"]) != ("pos", "pos")
             or len(set(inp["pos"])) < len(inp["pos"]) or len(set(inp["neg"])) < len(inp["neg"])
             or len(inp["pos"]) == 1 or len(inp["neg"]) == 1)
